@@ -111,3 +111,23 @@ mod stream {
         post
     }
 }
+
+/// State of a freshly constructed stream iterator:
+/// (sid, start id, absolute_pos, buffer_pos, buffer_reported_pos, buffer end,
+/// buffer capacity, buffer min).
+#[cfg(feature = "std")]
+pub fn stream_parts<'a, A: Automaton, R>(
+    it: &StreamFindIter<'a, A, R>,
+) -> (StateID, StateID, usize, usize, usize, usize, usize, usize) {
+    let c = &it.it;
+    (
+        c.sid,
+        c.start,
+        c.absolute_pos,
+        c.buffer_pos,
+        c.buffer_reported_pos,
+        crate::util::buffer::verif::buffer_end(&c.buf),
+        crate::util::buffer::verif::buffer_cap(&c.buf),
+        c.buf.min_buffer_len(),
+    )
+}
